@@ -286,11 +286,14 @@ def isolated_main(path_in, path_out):
     json.dump(out, open(path_out, 'w'))
 
 
-def examine(ctx, pool_seed, hist_seed, length):
+def examine(ctx, pool_seed, hist_seed, length, must=()):
     import tempfile
     rng = random.Random(hist_seed)
     ops = all_ops()
-    history = [rng.choice(ops) for _ in range(length)]
+    # `must`: this history's share of a partition of ALL operations (so that every operation is executed at least once per run),
+    # mixed with random further calls
+    history = [list(o) for o in must] + [rng.choice(ops) for _ in range(max(length - len(must), length // 3))]
+    rng.shuffle(history)
     # repeat some calls back to back and revisit earlier ones
     for _ in range(length // 5):
         k = rng.randrange(len(history))
@@ -376,8 +379,13 @@ def run(ctx):
     ctx.assumptions = ['mutation through channels a structural fingerprint cannot see (C extensions, matplotlib state) is not observed']
     if standard_prologue(ctx):
         n = 4 if ctx.tier == 'quick' else 40
+        ops = all_ops()
+        random.Random(ctx.seed + 20).shuffle(ops)
+        per = 4 if ctx.tier == 'quick' else 8          # histories per full pass over the operation list
         for k in range(n):
-            examine(ctx, ctx.seed * 1000 + k, ctx.seed * 7919 + k, 40 if ctx.tier == 'quick' else 80)
+            share = ops[(k % per)::per]
+            examine(ctx, ctx.seed * 1000 + k, ctx.seed * 7919 + k, 40 if ctx.tier == 'quick' else 80, must=share)
+        ctx.extra['operations_in_registry'] = len(ops)
     return RULE
 
 
